@@ -20,5 +20,6 @@ Definition dispatch (s : sx) : sx :=
   | 30 => run_block payload
   | 31 => run_tables payload
   | 40 => run_pipe payload
+  | 41 => run_guards payload
   | _ => SL [SI (-1)]
   end.
